@@ -79,6 +79,12 @@ func TestComposition(t *testing.T) {
 		gc := gen.GenGraph(t, gen.GraphOpts{MaxTypes: 6, Recursion: true}, "g")
 		pg := gc.Print(nil)
 		sp := specOf(pg, gc.G.KeysOptional)
+		// the file name of a schema object is independent of the name it is added under: sometimes
+		// every object gets the same one (anonymous `or` types must still be kept apart)
+		sp.SameFile = rapid.IntRange(0, 2).Draw(t, "sameFile") == 0
+		if sp.SameFile {
+			run.Label("all-objects-with-one-file-name")
+		}
 		s, add := lib.Build(sp)
 		cr := lib.Check(s)
 		if add.Panic != "" || cr.Panic != "" {
